@@ -439,6 +439,34 @@ impl C17 {
         if which & 4 != 0 {
             cx.eval();
             let lib = tetris_lib(g, listing);
+            // the placer's own orderer works on what a layout lists: `instances` and `places`. Half of the time the listing is made the way
+            // builders really leave it: the last instance entered as a placeable instead (after a reference to one of its ports), the first
+            // instance listed twice and entered as a placeable as well. Every instance is still one instance.
+            // (only in libraries that register all their cells: the CELL order follows `instances` alone, so a cell reachable only through
+            // an instance that sits in `places` is outside what `Library::dep_order` - and with it the placer - is asked about)
+            let redundant = listing.len() == g.len() && (g.len() + g.iter().map(|d| d.len()).sum::<usize>()) % 2 == 0;
+            let mut expect: Vec<(String, Vec<String>)> = Vec::new();
+            if redundant {
+                for c in lib.dep_order().iter() {
+                    let mut c = c.write().unwrap();
+                    let cname = c.name.clone();
+                    if let Some(lay) = c.layout.as_mut() {
+                        let mut names: Vec<String> = lay.instances.iter().map(|i| i.read().unwrap().inst_name.clone()).collect();
+                        names.sort();
+                        expect.push((cname, names));
+                        if lay.instances.len() >= 2 {
+                            let last = lay.instances.pop().unwrap();
+                            lay.places.push(tet::placement::Placeable::Port { inst: last.clone(), port: "x".into() });
+                            lay.places.push(tet::placement::Placeable::Instance(last));
+                        }
+                        if let Some(first) = lay.instances.first().cloned() {
+                            lay.instances.push(first.clone());
+                            lay.places.push(tet::placement::Placeable::Instance(first));
+                        }
+                    }
+                }
+                cx.count("placer_runs_on_redundant_listings");
+            }
             match guard(|| tet::placer::Placer::place(lib, crate::gen::tetgen::empty_stack())) {
                 Err(c) => cx.violation(&format!("{}|tetris-placer|panic|{}", class, c.norm_msg()), json!({"graph": g, "listing": listing, "panic": c.msg})),
                 Ok(Err(_)) => {
@@ -448,11 +476,28 @@ impl C17 {
                         cx.count("tetris_placer_cycles_rejected");
                     }
                 }
-                Ok(Ok(_)) => {
+                Ok(Ok((placed, _))) => {
                     if cyclic {
                         cx.violation(&format!("{}|tetris-placer|cyclic-graph-ordered", class), json!({"graph": g, "listing": listing}));
                     } else {
-                        cx.count("tetris_placer_ok");
+                        // each cell's instances, after placement: every one of them, once
+                        let mut bad: Option<(String, Vec<String>, Vec<String>)> = None;
+                        if redundant {
+                            for c in placed.dep_order().iter() {
+                                let c = c.read().unwrap();
+                                if let (Some(lay), Some((_, want))) = (c.layout.as_ref(), expect.iter().find(|(n, _)| *n == c.name)) {
+                                    let mut got: Vec<String> = lay.instances.iter().map(|i| i.read().unwrap().inst_name.clone()).collect();
+                                    got.sort();
+                                    if got != *want && bad.is_none() {
+                                        bad = Some((c.name.clone(), want.clone(), got));
+                                    }
+                                }
+                            }
+                        }
+                        match bad {
+                            Some((cell, want, got)) => cx.violation(&format!("{}|tetris-placer|{}", class, if got.len() > want.len() { "instance-placed-twice" } else { "instance-dropped" }), json!({"cell": cell, "instances": want, "after_placement": got, "graph": g, "listing": listing})),
+                            None => cx.count("tetris_placer_ok"),
+                        }
                     }
                 }
             }
